@@ -63,7 +63,7 @@ func init() {
 			"(a) the full operator x operand x operand cell table over 20 literal spellings + variables/fields of every dynamic type, in 4 observation contexts (print, variable, field, eval-in-block); " +
 			"(b) all expression trees of depth <=2 over A atoms (quick 7, thorough 10), 12 binary and 3 prefix operators and assignment atoms; " +
 			"(c) all unparenthesised chains of 4 operands (thorough 5) with every operator triple and every prefix pattern; (d) redundant parentheses (1 and 2 pairs) at every depth<=1 sub-expression; " +
-			"(e) left/right nested chains and parenthesis towers of length 8..64. A state = one program; non-trivial = outcome specified by the documentation (not NaN ordering etc.).",
+			"(e) left/right nested chains and parenthesis towers of length 8..64; (f) every prefix operator over and/or over every comparison with 4 atoms per operand (depth 3). A state = one program; non-trivial = outcome specified by the documentation (not NaN ordering etc.).",
 		Subs:           []*fw.Sub{subC01},
 		BudgetQuick:    100,
 		BudgetThorough: 1500,
@@ -210,6 +210,27 @@ func enumC01(c *fw.Ctx, do func(src, shard string) bool) {
 				}
 			}
 			c.Bound("chain_operators_completed", nops)
+			// (f) prefix operators over short-circuit operators over comparisons (depth 3): the shapes in
+			// which a peephole or a jump patch could interact (`not (c and a != b)`)
+			fAtoms := []string{"0", "2", `"a"`, "nil"}
+			for _, pre := range []string{"not ", "- ", "not not "} {
+				for _, bop := range []string{"and", "or"} {
+					for _, cmp := range []string{"!=", "<=", ">=", "==", "<"} {
+						for _, a := range fAtoms {
+							for _, b := range fAtoms {
+								for _, c3 := range fAtoms {
+									for _, shape := range []string{"%s(%s %s %s %s %s)", "%s(%s %[5]s %[4]s %[3]s %[6]s)", "%s(%s %s (%s %s %s))"} {
+										e := fmt.Sprintf(shape, pre, a, bop, b, cmp, c3)
+										do("print "+e, "")
+										do("def blk { f = "+e+"; g = 1 }", "")
+									}
+								}
+							}
+						}
+					}
+				}
+			}
+			c.Bound("prefix_over_shortcircuit_over_comparison", true)
 			// (e) deep nesting
 			for _, n := range []int{8, 16, 32, 64} {
 				for _, op := range gen.BinOps {
